@@ -524,6 +524,13 @@ def build(case, arrays=None):
             if not c.get("dim_default"):
                 kw["omega_boundary_dim"] = {k: (jnp.s_[::] if (fc is None or fc["dim"] is None) else dimv(fc["dim"]))
                                             for k, fc in zip(names, c["facets"])}
+            if c.get("key_order") and not c.get("names"):
+                # the per-facet dictionaries written in another key order (the same for the three of them, as the
+                # constructor requires): every entry still belongs to the facet its key names
+                perm = [names[i] for i in c["key_order"]]
+                for kk in ("omega_boundary_fun", "omega_boundary_condition", "omega_boundary_dim"):
+                    if isinstance(kw.get(kk), dict):
+                        kw[kk] = {k: kw[kk][k] for k in perm}
     border = None if arrays["border"] is None else jnp.asarray(
         [[[float(x) for x in cc] for cc in row] for row in arrays["border"]], dtype=jnp.float64)
     if kind == "statio":
@@ -930,7 +937,13 @@ def gen_boundary(rng, case, allow_dict=True):
         facets = [None if rng.random() < 0.3 else facet(k) for k in range(nF)]
         if all(f is None for f in facets):
             facets[rng.randrange(nF)] = facet(0)
-        return {"w": w, "global": False, "facets": facets}
+        out = {"w": w, "global": False, "facets": facets}
+        if rng.random() < 0.6:
+            order = list(range(nF))
+            while order == sorted(order):
+                rng.shuffle(order)
+            out["key_order"] = order
+        return out
     return {"w": w, "global": True, "facets": [facet(None)]}
 
 
